@@ -72,7 +72,7 @@ PROPS["C10"] = {
 PROPS["C05"] = {
     "technique": "grammar-directed generation with syntactic-variant rendering; parsed AST compared with the denoted AST; single-field corruption table",
     "level_text": "Sentences are rendered from generated ASTs through every documented spelling variant (the renderer is independent of the library's Display) and the parser's output is compared field by field with the AST the sentence denotes; a table of single-field corruptions and unsupported constructs must be rejected. Exploration: coverage of productions x variants is measured and a variant never rendered fails the run.",
-    "rule": "seeded ASTs restricted to shapes the documented grammar can denote (<= 4 rules quick / 6 thorough; every selector kind alone in a third of the cases) x 3..7 spellings each chosen among 34 variant knobs (optional spaces, single-digit hours/days, off/closed, ':'/' ' separators, '+' forms, 'Jan 5-10', '\"c\":' prefix, ...); oracle: parse(render(ast)) == ast on the library's public AST type. Negative: ~1500 single-field corruptions (hour, minute, extended time, day, week, nth, year, zero step, empty, unbalanced quote) in 6 sentence contexts must be Err; points in time and Easter+day number must be Err. Non-trivial = expression with at least one selector; distinct by hash of the AST.",
+    "rule": "seeded ASTs restricted to shapes the documented grammar can denote (<= 4 rules quick / 6 thorough; every selector kind alone in a third of the cases) x 3..7 spellings each chosen among 34 variant knobs (optional spaces, single-digit hours/days, off/closed, ':'/' ' separators, '+' forms, 'Jan 5-10', '\"c\":' prefix, ...); oracle: parse(render(ast)) == ast on the library's public AST type. Negative: ~1500 single-field corruptions (hour, minute, extended time, day, week, nth, year, zero step, empty, unbalanced quote) in 6 sentence contexts must be Err; points in time and Easter+day number must be Err. Plus, in every tier, an EXHAUSTIVE sweep of the value domain of every atomic field, one field per sentence, plain + 2 random spellings each (atomic_values_enumerated ~ 72 700): every year 1900..9999 alone / open-ended / as range end, year steps, all 53x53 week pairs and week steps 2..255, all 12x12 month pairs with and without year, every day 1..31 of every month alone, dated, and as range start with ends in the same/next month/year, day offsets -400..400 on dates, Easter and PH, weekday offsets, all 7x7 weekday pairs, all 1022 non-empty sets of nth positions per weekday, every clock minute 00:00..24:00 as start and 00:01..48:00 as end, open ends, repeats 1..1440 min, event offsets -1440..1440 for the four events at either end of a span. Non-trivial = expression with at least one selector; distinct by hash of the AST.",
     "assumptions": ["the harness renderer emits only sentences derivable from grammar.pest (checked by review and by the unchanged tree accepting all of them)", "PartialEq on the public AST types"],
 }
 
@@ -149,7 +149,7 @@ PROPS["C09"] = {
 PROPS["C11"] = {
     "technique": "physical-invariant monitor on event instants and on evaluation with inferred contexts, plus acceptance-boundary probing of the coordinate validator",
     "level_text": "Without coordinates, event-based spans with offsets must sit at 06:00/07:00/19:00/20:00 on random dates (naive and zoned contexts). Coordinate pairs from a boundary set (+-90, +-180, +-1 ulp, +-inf, NaN, huge) and random ones must be accepted iff within range and not NaN. Every accepted pair (5-degree global grid incl. poles and antimeridian, random sites, 40 cities) must yield a zone and evaluate without panic; below 60 degrees the five event instants must be strictly ordered, solar noon within 25 min of mean solar noon, the day's schedule must show exactly the local event times, 'sunrise-sunset' open at solar noon and closed 12 h away, the inferred zone within 5 h of mean solar time, and reference cities mapped to a zone with their offsets. Exploration.",
-    "rule": "seeded: per case one default-event check (random date 1900..9999, two events with offsets, random zone), four coordinate-pair acceptance probes, and one site (60% random with |lat| <= 60, 10% at latitude boundaries/poles, 10% at the antimeridian, 20% near a reference city) on a date of 1900..2100 (solstices and equinoxes over-weighted). Non-trivial = site check completed; distinct by hash of (lat, lon, date). The open-at-noon/closed-at-midnight probe is made only when all five events fall on the same local calendar day (abstained_wrap otherwise).",
+    "rule": "exhaustive over dates: the defaults are checked on EVERY day 1900-01-02..9999-12-31 in a plain and a zoned context (default_event_days_swept = 2 958 463); seeded: per case one default-event check (random date 1900..9999, two events with offsets, random zone), four coordinate-pair acceptance probes, and one site (60% random with |lat| <= 60, 10% at latitude boundaries/poles, 10% at the antimeridian, 20% near a reference city) on a date of 1900..2100 (solstices and equinoxes over-weighted). Non-trivial = site check completed; distinct by hash of (lat, lon, date). Immediately before each judged site the same coordinates are evaluated under another, explicit zone on the same dates (hostile history; the first evaluation in the judged context must already be right). The open-at-noon/closed-at-midnight probe is made only when all five events fall on the same local calendar day (abstained_wrap otherwise).",
     "assumptions": ["the astronomy of the `sunrise` crate is trusted up to the physical-ordering checks", "tzf-rs/chrono-tz data are trusted; only their use is monitored"],
 }
 
@@ -159,8 +159,8 @@ PROPS["C18"] = {
     "workers": False,
     "special": _c18.special,
     "technique": "history monitor over fresh processes: concurrent results vs a sequential reference process, first use of the lazy tables raced through hook H3 gates/delays; thorough adds ThreadSanitizer and Miri",
-    "level_text": "A reference process evaluates a generated case list sequentially and probes history dependence (repeated calls; each case re-evaluated right after adversarial neighbours - same expression in another context / another expression in the same context at t-1d, t, t+1d; evaluated alone in a fresh thread; values sharing ONE parsed expression through clone + with_context evaluated alternately on the same day against independently parsed values); then fresh processes (lazy tables uninitialised) start 2..64 threads on a barrier, every thread walking its own permutation of the cases on shared Arc values, clones and fresh parses, with a rendez-vous before first use of each lazy table and delays of 0 / 50 us / 5 ms injected inside the initialisers (hook H3); every answer (state, next_change, 16 intervals, 3 daily schedules, holiday-calendar facts, inferred zone and country) is compared with the reference and identifies (thread, step, case). Thorough repeats the race under ThreadSanitizer (-Zbuild-std) and a reduced race (holiday tables only, light answers) under Miri with several scheduler seeds. Exploration of interleavings: the evidence reports in how many runs first use was actually contended.",
-    "rule": "4 case lists (thorough 10) of 400 seeded (expression, context in {none, synthetic calendar, embedded country, fixed zone, coordinates -> inferred zone+country}, instant) x 36 (thorough 200) fresh processes each over threads {2,4,16,64} x initialiser delay {0, 50 us, 5 ms} x gate on/off. evaluations = single evaluations of a case; distinct_nontrivial = distinct cases by hash (all are non-trivial: each yields a multi-part answer).",
+    "level_text": "A reference process evaluates a generated case list sequentially and probes history dependence (repeated calls; each case re-evaluated right after adversarial neighbours - same expression in another context / another expression in the same context at t-1d, t, t+1d, the context changed in ONE component at a time: calendar, country, zone, coordinates under the same zone, and always first the same coordinates under another zone; evaluated alone in a fresh thread; values sharing ONE parsed expression through clone + with_context evaluated alternately on the same day against independently parsed values); then fresh processes (lazy tables uninitialised) start 2..64 threads on a barrier, every thread walking its own permutation of the cases on shared Arc values, clones and fresh parses, with a rendez-vous before first use of each lazy table and delays of 0 / 50 us / 5 ms injected inside the initialisers (hook H3); every answer (state, next_change, 16 intervals, 3 daily schedules, holiday-calendar facts, inferred zone and country) is compared with the reference and identifies (thread, step, case). Thorough repeats the race under ThreadSanitizer (-Zbuild-std) and a reduced race (holiday tables only, light answers) under Miri with several scheduler seeds. Exploration of interleavings: the evidence reports in how many runs first use was actually contended.",
+    "rule": "4 case lists (thorough 10) of 400 seeded (expression, context in {none, synthetic calendar, embedded country, fixed zone, explicit zone + coordinates, coordinates -> inferred zone+country}, instant) x 36 (thorough 200) fresh processes each over threads {2,4,16,64} x initialiser delay {0, 50 us, 5 ms} x gate on/off. evaluations = single evaluations of a case; distinct_nontrivial = distinct cases by hash (all are non-trivial: each yields a multi-part answer).",
     "assumptions": ["answers are compared as formatted strings of the public results", "Miri cannot run the tz-finder within budget: tz/country lazies are raced natively and under TSan only", "step budgets (hook H1, thread-local) make unbounded calls deterministic-cost; a budget cut is part of the compared answer"],
 }
 
